@@ -9,3 +9,4 @@ from . import smt  # noqa: F401
 from . import enc  # noqa: F401
 from . import hexary  # noqa: F401
 from . import trav  # noqa: F401
+from . import helpers  # noqa: F401
